@@ -54,13 +54,25 @@ class Tokenizer:
                 tok = self._stack.pop()
             else:
                 tok = next(self._tokengen)
+            self._record_lines(tok)
             if self.is_blank(tok):
                 continue
 
             self._tokens.append(tok)
-            if not self._path and tok.start[0] not in self._lines:
-                self._lines[tok.start[0]] = tok.line
         return self._tokens[self._index]
+
+    def _record_lines(self, tok: TokenInfo) -> None:
+        """remember the physical source lines a token lies on (error reports look them up by number)"""
+        if self._path:
+            return
+        if tok.end[0] > tok.start[0]:  # multi-line string: its line attribute holds all of its physical lines
+            lines = [line + "\n" for line in tok.line.split("\n")]
+            lines[-1] = lines[-1][:-1]  # no newline after the last piece (it is empty unless input ends there)
+            for offset, line in enumerate(lines):
+                if line:
+                    self._lines.setdefault(tok.start[0] + offset, line)
+        elif tok.start[0] not in self._lines:
+            self._lines[tok.start[0]] = tok.line
 
     def is_blank(self, tok: TokenInfo) -> bool:
         if self._proc_macro and tok.type == Token.WS:
@@ -87,6 +99,7 @@ class Tokenizer:
         line = ""
         while True:
             tok = next(self._tokengen)
+            self._record_lines(tok)
             if tok.type == Token.ENDMARKER:
                 raise self._syntax_error("unexpected EOF while scanning macro arguments", tok)
             if tok.type == Token.OP and tok.string[-1] in "([{":  # push paren level
@@ -134,6 +147,7 @@ class Tokenizer:
         lines = {}
         start = end = self._tokens[-1].end
         for idx, tok in enumerate(self._tokengen):
+            self._record_lines(tok)
             if (idx == 0) and tok.type == Token.NEWLINE:
                 continue
             elif tok.type == Token.ENDMARKER:
